@@ -13,6 +13,10 @@ CHECKS = {
    technique="TLA+ evaluator spec (GuardEval.Denote) model-checked over the single-clause space with TLC; TLC-generated cases replayed into run_checks; recorded evaluations trace-validated by TraceEval",
    text="TLC enumerates every single-clause program x document state of MC_E1 (exhaustive in the thorough tier), checks the documented corner rules as invariants of the specification and emits each state as a replay case that is executed against the real evaluator (status and every value-check outcome compared). In the other direction seeded random rule files (when/blocks/named rules/lets/filters/type blocks/keys filters) are run through run_checks and every recorded evaluation - per-rule status, file status, error-vs-no-error and the whole record tree - is validated by TLC against Denote. Model checking is the right level: the property quantifies over programs x inputs and needs an independent executable reading of the semantics, which is the TLA+ specification.",
    note=NOTE_BASE + "Where the documentation is silent the specification follows the code (IMPL-tagged rules); such rules pin behaviour but cannot expose a defect of the code they were copied from."),
+ "C02": dict(level="model_checking", engine="spec+replay+trace", design="5/C02",
+   technique="CNF combinator model (MC_Cnf) checked by TLC at the seven combination call sites and replayed into the evaluator; recorded evaluation records re-derived node by node by the GuardRecord.Explain trace specification",
+   text="TLC enumerates every CNF shape up to 3 lines x 3 alternatives with leaves forced to PASS/FAIL/SKIP (60 879 assignments) in each combination context (rule body, when body, query block, type block, filter, when conditions, file), checks on the specification that the resulting status is the one the property's rules give, and prints the serialised record tree; the harness runs each case and compares the implementation's record (kinds, statuses, shape, short-circuit). Independently, the complete record trees of random programs (type blocks, nested when/blocks, filters, rule references) are validated by TraceRecord: Explain walks the rules file and the implementation's own record in parallel and re-derives every composite status from the node's children, including 'condition not PASS => SKIP and body not evaluated', alternatives not evaluated after a PASS, rule references, and root status = returned status.",
+   note=NOTE_BASE + "Explain takes the value-check leaves as recorded (it does not depend on the query/operator semantics). Quick tier: 2 of the 7 contexts per run (rotating with the seed); thorough: all."),
  "C03": dict(level="model_checking", engine="spec+replay+trace", design="5/C03",
    technique="negation laws as TLC invariants over the single-clause space of MC_E1; every polarity replayed into run_checks; recorded negation groups validated by the TraceNeg trace specification",
    text="TLC checks on the specification, for every state of MC_E1, that prefix not equals operator-level not, that negating twice restores the original, that SKIP/errors are preserved and that a single comparable value flips PASS/FAIL (not X > v iff X <= v); each state is replayed against the real evaluator in its 2-4 polarities and the relation is re-checked directly between the implementation's runs. Random programs with one clause (in rule bodies, blocks, when conditions, filters) negated both ways, plus `not R` rule references, are recorded and the laws are evaluated by the trace specification TraceNeg on the implementation's own observations.",
@@ -24,7 +28,7 @@ CHECKS = {
 }
 
 m = {"version": 1,
-     "setup_cmd": "cd /verif/harness && cargo build --offline && cd /verif/spec && for f in GuardValues GuardOps GuardEval TraceEval TraceNeg MC_E1 MC_C13; do tla-sany $f.tla > /dev/null || exit 1; done",
+     "setup_cmd": "cd /verif/harness && cargo build --offline && cd /verif/spec && for f in GuardValues GuardOps GuardEval TraceEval TraceNeg TraceRecord MC_E1 MC_C13 MC_Cnf; do tla-sany $f.tla > /dev/null || exit 1; done",
      "hooks": {"guard": "guard_verif",
                "enable": "rustflags = [\"--cfg\", \"guard_verif\"] in /verif/harness/.cargo/config.toml (checks build the cfn-guard library through the harness path dependency on /repo/guard)",
                "baseline_off_cmd": "cd /repo && cargo nextest run --workspace --no-fail-fast --test-threads 8 --offline || cargo test --workspace --no-fail-fast --offline",
